@@ -37,7 +37,7 @@ def run(ctx):
                 violations.append({"what": "the lookup following the raced %s fails: %s" % (desc["op"][0], cls2), "classification": {"kind": "later-error", "op": desc["op"][0], "call": call},
                                    "replay": {"kind": "schedule-equivalent", "scenario": L, "lost_race": {"call_index": k, "call": call, "path": path, "returns": er}}})
     # real interleavings (gate mode): no operation of any participant may fail in any explored schedule
-    sched_runs = K.explore(ctx, only=lambda f: any(t in f["name"] for t in ("maintenance", "ensure", "promote", "put-vs", "set-vs-set", "nodir")))
+    sched_runs = K.explore(ctx, only=lambda f: any(t in f["name"] for t in ("maintenance", "ensure", "promote", "put-vs", "set-vs-set", "nodir", "adversary")))
     sched_agree = 0
     for fam, kind, plan, cr, diffs, obs, ml in sched_runs:
         if diffs:
